@@ -62,6 +62,8 @@ import (
 	ptypes "github.com/ovrclk/akash/x/provider/types"
 )
 
+var vPStuckSeen int32
+
 const (
 	vPDeploy    = "deploy"
 	vPTeardown  = "teardown"
@@ -422,6 +424,22 @@ func vRunProvider(run *vPRun, seed int64) []vPViolation {
 	svc := svcI.(*service)
 
 	// the tenants
+	// pto: the bound of a wait for the provider to answer.  Once one such wait
+	// has run out in this process (a component is stuck: the verdict exists) the
+	// later ones are short.
+	pto := func() time.Duration {
+		if atomic.LoadInt32(&vPStuckSeen) != 0 {
+			return time.Second
+		}
+		return vPTimeout
+	}
+	stuck := func() { atomic.StoreInt32(&vPStuckSeen, 1) }
+	// status with a bound: a dead-locked component never answers its status query
+	statusOf := func() (*Status, error) {
+		sctx, scancel := context.WithTimeout(ctx, 3*time.Second)
+		defer scancel()
+		return svc.Status(sctx)
+	}
 	wait := func(cond func() bool, d time.Duration) bool {
 		dl := time.Now().Add(d)
 		for !cond() {
@@ -464,7 +482,8 @@ func vRunProvider(run *vPRun, seed int64) []vPViolation {
 		}()
 		select {
 		case <-done:
-		case <-time.After(vPTimeout):
+		case <-time.After(pto()):
+			stuck()
 		}
 		return sb
 	}
@@ -488,7 +507,7 @@ func vRunProvider(run *vPRun, seed int64) []vPViolation {
 			if k.o.Outcome != "won" {
 				return
 			}
-			if !wait(func() bool { return atomic.LoadInt32(&k.leaseWonPub) != 0 }, vPTimeout) {
+			if !wait(func() bool { return atomic.LoadInt32(&k.leaseWonPub) != 0 }, pto()) {
 				note("order %d: no bid landed", k.o.Idx)
 				return
 			}
@@ -525,7 +544,8 @@ func vRunProvider(run *vPRun, seed int64) []vPViolation {
 	tenantsDone := true
 	select {
 	case <-tdone:
-	case <-time.After(3 * vPTimeout):
+	case <-time.After(3 * pto()):
+		stuck()
 		tenantsDone = false
 		note("the tenants' scripts did not finish")
 	}
@@ -567,14 +587,14 @@ func vRunProvider(run *vPRun, seed int64) []vPViolation {
 		if stable < 30 {
 			return false
 		}
-		st, err := svc.Status(ctx)
+		st, err := statusOf()
 		if err != nil {
 			return false
 		}
 		status = st
 		return len(st.Cluster.Inventory.Pending)+len(st.Cluster.Inventory.Active) == expected()
 	}, 8*time.Second)
-	if st, err := svc.Status(ctx); err == nil {
+	if st, err := statusOf(); err == nil {
 		status = st
 	}
 	if status != nil {
@@ -615,7 +635,8 @@ func vRunProvider(run *vPRun, seed int64) []vPViolation {
 	select {
 	case <-svc.Done():
 		bus.Close()
-	case <-time.After(vPTimeout):
+	case <-time.After(pto()):
+		stuck()
 		note("the provider service did not shut down")
 	}
 	close(stop)
